@@ -54,11 +54,12 @@ PROPS = {
         "coq_deps": ["ManagerFacts"],
         "steps": [
             {"sub": "mgr", "quick": [0], "thorough": [1]},
+            {"sub": "c13", "quick": [0], "thorough": [1], "timeout": 3000},
         ],
         "rule": "as C15; regime 0 ties the fill / write-through / flush logic itself (the number of database operations of every call must "
                 "equal the model's), regime 2 (2 ms lifetimes, 300-1800 byte limits, real sleeps, cleaning toggled by transactions) must "
                 "return what the cache-less model returns",
-        "assumptions": ["each storage operation is atomic (DashMap / RwLock); concurrent read-fill racing a write-through is outside this model (see DESIGN.md K3)"],
+        "assumptions": ["the theorems treat each manager operation as atomic; the concurrent read-fill / write-through race (K3, fixed by b5f126b) is explored on the real code by the scheduling harness (reader parked between the database's answer and the cache fill)"],
     },
     "C01": {
         "spec_ops": ["specroot"],
@@ -142,7 +143,7 @@ PROPS = {
         "steps": [{"sub": "c13", "quick": [0], "thorough": [1], "timeout": 3000},
                   {"sub": "c11", "quick": [0], "thorough": [0], "timeout": 3000}],
         "rule": "a reader request (lookup of two labels, key history, audit, epoch hash) interleaved with a publish under explicit schedules, on the writer instance, on a separate uncached instance and on a separate cached instance whose view lags storage by 0-3 epochs; every Ok answer must name an (epoch, root hash) pair the directory published and verify against it; the change poller must make later requests use an epoch at least as new as the signalled one; the version-selection model is tied by the store-level lines of the c11 step",
-        "assumptions": ["each storage operation is atomic; the read-fill / write-through race on one cache key (K3) is outside the schedules explored (see DESIGN.md)"],
+        "assumptions": ["each storage operation is atomic in the protocol model; pre-emption between a storage operation and its return to the caller is explored on the real code (this is how K3 was reproduced; fixed by b5f126b)"],
     },
     "C14": {
         "coq_deps": ["InsertFacts", "InsertRefine"],
@@ -230,11 +231,12 @@ PROPS = {
         "coq_deps": ["ManagerFacts"],
         "steps": [
             {"sub": "mgr", "quick": [0], "thorough": [1]},
+            {"sub": "c13", "quick": [0], "thorough": [1], "timeout": 3000},
         ],
         "rule": "as C15; regime 0 ties the fill / write-through / flush logic itself (the number of database operations of every call must "
                 "equal the model's), regime 2 (2 ms lifetimes, 300-1800 byte limits, real sleeps, cleaning toggled by transactions) must "
                 "return what the cache-less model returns",
-        "assumptions": ["each storage operation is atomic (DashMap / RwLock); concurrent read-fill racing a write-through is outside this model (see DESIGN.md K3)"],
+        "assumptions": ["the theorems treat each manager operation as atomic; the concurrent read-fill / write-through race (K3, fixed by b5f126b) is explored on the real code by the scheduling harness (reader parked between the database's answer and the cache fill)"],
     },
     "C01": {
         "spec_ops": ["specroot"],
@@ -318,7 +320,7 @@ PROPS = {
         "steps": [{"sub": "c13", "quick": [0], "thorough": [1], "timeout": 3000},
                   {"sub": "c11", "quick": [0], "thorough": [0], "timeout": 3000}],
         "rule": "a reader request (lookup of two labels, key history, audit, epoch hash) interleaved with a publish under explicit schedules, on the writer instance, on a separate uncached instance and on a separate cached instance whose view lags storage by 0-3 epochs; every Ok answer must name an (epoch, root hash) pair the directory published and verify against it; the change poller must make later requests use an epoch at least as new as the signalled one; the version-selection model is tied by the store-level lines of the c11 step",
-        "assumptions": ["each storage operation is atomic; the read-fill / write-through race on one cache key (K3) is outside the schedules explored (see DESIGN.md)"],
+        "assumptions": ["each storage operation is atomic in the protocol model; pre-emption between a storage operation and its return to the caller is explored on the real code (this is how K3 was reproduced; fixed by b5f126b)"],
     },
     "C14": {
         "coq_deps": ["InsertFacts", "InsertRefine"],
